@@ -2,6 +2,7 @@
 import struct
 import containers
 import id3file_tie
+import apefile_tie
 import formats as F
 import walkers
 import id3spec
@@ -362,6 +363,7 @@ def run(ctx):
     unknown_kept(ctx)
     order_independence(ctx)
     id3file_tie.run(ctx)
+    apefile_tie.run(ctx)
 
 
 def search(ctx):
